@@ -18,7 +18,7 @@ RULE = (
     "over a Nix-token alphabet and arbitrary unicode; (c) the same damaged texts (plus empty and multi-expression texts) used as "
     "VALUE of a set on a valid document. Classification by tree-sitter's own has_error. Oracle for erroneous T: "
     "rebuild(parse(T)) == T byte for byte, CLI test prints Fail / returns 1, set_value and remove_value raise and return nothing; "
-    "for an erroneous / empty / multi-expression VALUE set_value raises ValueError and the document still rebuilds to the same text. "
+    "for an erroneous / empty / multi-expression VALUE set_value (at plain, nested, quoted and `@`-scoped paths) raises ValueError, the document still rebuilds to the same text, and the CLI prints nothing / does not exit 0. "
     "Non-trivial = erroneous text (or erroneous VALUE); distinct by SHA-1 of the text."
 )
 ASSUMPTIONS = ["tree-sitter-nix 0.1.0 root.has_error defines 'contains a syntax error'", "texts stay below 250 lines/columns (py-tree-sitter Point bug, see DESIGN)"]
@@ -63,13 +63,16 @@ def judge_erroneous(text):
     return fails
 
 
-def judge_value(doc, value):
+VALUE_PATHS = ["a", "a", "new", "b.c", "x.y.z", "@x", "@new", "@@x", '"a"', "a.sub"]
+
+
+def judge_value(doc, value, path="a"):
     """Oracle for a VALUE that is not exactly one well-formed expression."""
     fails = []
     src = nima.parse(doc)
     before = src.rebuild()
     try:
-        res = nima.set_value(src, "a", value)
+        res = nima.set_value(src, path, value)
     except ValueError:
         res = None
     except Exception as e:  # noqa: BLE001
@@ -80,6 +83,10 @@ def judge_value(doc, value):
     after = src.rebuild()
     if after != before:
         fails.append(("bad-value-changed-document", {"before": before[:100], "after": after[:100]}))
+    if "\x00" not in value and not value.startswith("-"):
+        code, so, se, exc = nima.cli(["set", path, value], doc)
+        if so != "" or (exc is None and code == 0):
+            fails.append(("cli-bad-value-emits-or-succeeds", {"code": code, "stdout": so[:120]}))
     return fails
 
 
@@ -95,7 +102,7 @@ def check_case(case):
     kind = case["kind"]
     if kind == "text":
         return judge_erroneous(case["text"])
-    return judge_value(case["doc"], case["value"])
+    return judge_value(case["doc"], case["value"], case.get("path", "a"))
 
 
 def replay(case):
@@ -153,11 +160,13 @@ def run_shard(sh):
                 sh.record({"kind": "value", "value": text}, False, ["value:well-formed"])
                 return
             doc = r.choice(DOCS)
-            case = {"kind": "value", "doc": doc, "value": text}
-            fails = judge_value(doc, text)
-            sh.record(case, True, ["mode:value", "op:" + op])
+            path = r.choice(VALUE_PATHS)
+            case = {"kind": "value", "doc": doc, "value": text, "path": path}
+            fails = judge_value(doc, text, path)
+            pcls = "scoped" if path.startswith("@") else "plain"
+            sh.record(case, True, ["mode:value", "op:" + op, "path:" + pcls])
             for k, d in fails:
-                sh.fail(f"{k}|value|{op.split('+')[0]}", case, d)
+                sh.fail(f"{k}|value:{pcls}|{op.split('+')[0]}", case, d)
             return
         tree = cst.parse(text)
         if not tree.root.has_error:
